@@ -11,6 +11,7 @@ Emit_DiskChopper.tla (spec -> code), Trace_DiskChopper.tla (code -> spec).
    throughout, closed one tick outside, duration = width, nothing twice, nothing missing), for the
    direct query and for the expansion over pulses (= the disk rotating for np pulse periods); the
    sort-and-compare slit validation with wrap-around equals disjointness on the circle; in-phase.
+   Thorough adds random walks (-simulate) on a 360-tick disk with up to 6 slits.
    Five negative controls (no wrap-around, one offset per pulse, open/close swapped, phase sign,
    a missing turn) must be rejected.
 2. spec -> code (M1): TLC writes every Stride-th configuration of that model with the expected pairs,
@@ -35,16 +36,18 @@ from __future__ import annotations
 
 import json
 import os
+import time
 from fractions import Fraction
 
 import scipp as sc
 
 from ..core import MachineryError
-from ..lib_chopper import (ANGLE_UNITS, FREQ_UNITS, freq_value, make_disk, random_valid_slits,
+from ..lib_chopper import (ANGLE_UNITS, Background, Collector, chunked, merge_results, run_chunks, FREQ_UNITS, freq_value, make_disk, random_valid_slits,
                            spans_tdc, to_ticks, touching_only)
-from ..tlc import require_ok, write_ndjson
+from ..tlc import require_actions, require_ok, write_ndjson
 
 W = int(os.environ.get('VERIF_TLC_WORKERS', '16'))
+PROCS = int(os.environ.get('VERIF_PROCS', '6'))
 
 RULE = ('configuration = slit set on a K-tick disk (begin on the first turn, begin < end < begin + K) x '
         'beam position x phase (several turns, either sign) x sense x ratio in {1/4,1/3,1/2,1,2,3,4,8} x '
@@ -65,22 +68,6 @@ def _call(ctx, what, key_ctx, fn):
         return fn(), None
     except Exception as e:  # noqa: BLE001
         return None, e
-
-
-class Recorder:
-    def __init__(self, ctx):
-        self.ctx = ctx
-        self.events = []
-        self.info = []       # parallel: dict for violation keys / details
-        self.n_direct = 0
-        self.n_direct_equal = 0
-        self.n_exp = 0
-        self.n_exp_equal = 0
-
-    def add(self, ev, info):
-        ev['tid'] = len(self.events)
-        self.events.append(ev)
-        self.info.append(info)
 
 
 def _pairs_event(cfg, api, np_, pairs, durs, ongrid):
@@ -125,8 +112,8 @@ def replay_config(ctx, rec, cfg, aunit, funit, fp_hz, nps, order, expected=None,
                 {'api': 'time_offset_open/close', 'rc': rc, 'desc': desc,
                  'times_s': {'open': to.to(unit='s').values.tolist(), 'close': tc.to(unit='s').values.tolist()}})
         if expected is not None:
-            rec.n_direct += 1
-            rec.n_direct_equal += sorted(map(tuple, pairs)) == sorted(map(tuple, expected['direct']))
+            rec.count('direct')
+            rec.count('direct_equal', int(sorted(map(tuple, pairs)) == sorted(map(tuple, expected['direct']))))
     # ---- expansion over pulses
     for np_ in nps:
         ch, exc = _call(ctx, 'expand', None, lambda np_=np_: Chopper.from_disk_chopper(disk, pf, np_))
@@ -144,8 +131,8 @@ def replay_config(ctx, rec, cfg, aunit, funit, fp_hz, nps, order, expected=None,
                  'times_s': {'open': ch.time_open.to(unit='s').values.tolist(),
                              'close': ch.time_close.to(unit='s').values.tolist()}})
         if expected is not None and np_ <= len(expected['exp']):
-            rec.n_exp += 1
-            rec.n_exp_equal += sorted(map(tuple, pairs)) == sorted(map(tuple, expected['exp'][np_ - 1]))
+            rec.count('exp')
+            rec.count('exp_equal', int(sorted(map(tuple, pairs)) == sorted(map(tuple, expected['exp'][np_ - 1]))))
     # ---- chopper and pulse frequency in different units (both are documented as frequencies)
     if mixed_units and funit != 'Hz':
         pf_hz = sc.scalar(float(fp_hz), unit='Hz')
@@ -208,6 +195,34 @@ def replay_ratio(ctx, rec, num, den, delta: Fraction, funit, cw, fp_hz):
     ctx.case(nontrivial_id=('ph', num, den, str(delta), funit, cw) if delta != 0 or num % den and den % num else None)
 
 
+def _count_simulated(ctx, res):
+    """States checked by a -simulate run (tlc.py only parses the summary line of exhaustive runs)."""
+    import re
+
+    m = re.findall(r'The number of states generated: (\d+)', res.out)
+    if m:
+        ctx.extra['simulated_states'] = ctx.extra.get('simulated_states', 0) + int(m[-1])
+        ctx.states += int(m[-1])
+        ctx.transitions += int(m[-1])
+
+
+def worker(tasks):
+    """Replay a chunk of tasks in this (fresh) process."""
+    col = Collector()
+    for t in tasks:
+        if t[0] == 'slits':
+            _, K, sl, au, order, nt = t
+            replay_slitset(col, col, K, sl, au, order)
+            col.case(nt)
+        elif t[0] == 'ratio':
+            replay_ratio(col, col, *t[1:])
+        else:
+            _, cfg, au, fu, fp, nps, order, expected, mixed, nt = t
+            replay_config(col, col, cfg, au, fu, fp, nps, order, expected=expected, mixed_units=mixed)
+            col.case(nt)
+    return col.export()
+
+
 def _nontrivial(cfg, nps):
     K = cfg['K']
     return (spans_tdc(cfg['slits'], K) or not 0 <= cfg['ph'] < K or cfg['num'] != cfg['den'] or max(nps, default=1) > 1)
@@ -225,108 +240,141 @@ def run(ctx):
                'tick grid is exact in binary floating point (the code decides this case by float equality)')
     ctx.assume('slits of full-circle width (end - begin >= one turn) are outside the generated inputs')
     th = ctx.thorough
-    # ------------------------------------------------------------------ 1. design
-    res = ctx.tlc('chopper/MC_DiskChopper.tla', 'MC_DiskChopper_thorough.cfg' if th else 'MC_DiskChopper.cfg',
-                  workers=W, timeout=1500)
-    require_ok(ctx, res, 'DiskChopper model')
-    for bug in ('nowrap', 'perpulse', 'swap', 'phasesign', 'gap'):
-        ctx.tlc('chopper/MC_DiskChopper.tla', f'Neg_DiskChopper_{bug}.cfg', workers=W, expect_error=True,
-                timeout=600)
-    # ------------------------------------------------------------------ 2. spec -> code
-    out = {k: str(ctx.tmp / f'c10-{k}.ndjson') for k in ('OUT_SLITS', 'OUT_CASES', 'OUT_RATIOS')}
-    em = ctx.tlc('chopper/MC_Emit_DiskChopper.tla',
-                 'MC_Emit_DiskChopper_thorough.cfg' if th else 'MC_Emit_DiskChopper.cfg',
-                 workers=2, env=out, timeout=900, count=False)
-    require_ok(ctx, em, 'Emit_DiskChopper')
-    emitted = em.tagged('EMITTED')
-    if not emitted:
-        raise MachineryError('emitter did not report')
-    load = lambda p: [json.loads(line) for line in open(p) if line.strip()]  # noqa: E731
-    slit_recs, case_recs, ratio_recs = load(out['OUT_SLITS']), load(out['OUT_CASES']), load(out['OUT_RATIOS'])
-    if [len(slit_recs), len(case_recs), len(ratio_recs)] != emitted[0][1:4]:
-        raise MachineryError(f'emitted files incomplete: {emitted} vs {len(slit_recs)}, {len(case_recs)}, {len(ratio_recs)}')
-    ctx.extra['emitted'] = {'slit_sets': len(slit_recs), 'configurations': len(case_recs), 'ratios': len(ratio_recs)}
-    rng = ctx.rng
-    rec = Recorder(ctx)
-    # -- slit sets
-    for i, r in enumerate(slit_recs):
-        sl, K = r['slits'], r['K']
-        order = list(range(len(sl)))
-        rng.shuffle(order)
-        units = ['deg'] if touching_only(sl, K) else (['deg', 'rad'] if (i % 3 == 0 or r['wraponly']) else
-                                                      [ANGLE_UNITS[i % 2]])
-        for au in units:
-            replay_slitset(ctx, rec, K, sl, au, order)
-            ctx.case(nontrivial_id=('s', i, au) if (spans_tdc(sl, K) or not r['valid']) else None)
-    # -- frequency ratios
-    deltas_near = [Fraction(0), Fraction(1, 10**12), Fraction(-1, 10**12), Fraction(9, 10**11), Fraction(-9, 10**11)]
-    deltas_far = [Fraction(1, 10**6) * 2, Fraction(-1, 10**6) * 2, Fraction(1, 10**4), Fraction(-3, 10**3),
-                  Fraction(1, 50), Fraction(-1, 7), Fraction(3, 10)]
-    for i, r in enumerate(ratio_recs):
-        for j, d in enumerate(deltas_near + deltas_far):
-            if not r['inphase'] and d != 0 and j < len(deltas_near):
-                continue
-            fp = PULSE_HZ[(i + j) % (len(PULSE_HZ) if th else 2)]
-            replay_ratio(ctx, rec, r['num'], r['den'], d, FREQ_UNITS[(i + j) % 3], bool((i + j) % 2), fp)
-    # -- configurations of the exhaustive model
-    nmax = 4 if th else 3
-    for i, c in enumerate(case_recs):
-        cfg = {k: c[k] for k in ('K', 'slits', 'bp', 'ph', 'cw', 'num', 'den')}
-        order = list(range(len(cfg['slits'])))
-        rng.shuffle(order)
-        nps = list(range(1, nmax + 1)) if th or i % 4 == 0 else [1 + i % nmax]
-        replay_config(ctx, rec, cfg, ANGLE_UNITS[i % 2], FREQ_UNITS[(i // 2) % 3], PULSE_HZ[(i // 6) % 2], nps,
-                      order, expected=c, mixed_units=(i % 24 == 2))
-        ctx.case(nontrivial_id=('c', i) if _nontrivial(cfg, nps) else None)
-    # ------------------------------------------------------------------ 3. code -> spec, random, large
-    nrand = 1200 if th else 250
-    for t in range(nrand):
-        K = rng.choice([24, 48, 72, 120, 360] if th else [24, 48, 72, 120])
-        n = rng.randrange(1, 7)
-        num, den = rng.choice([(1, 4), (1, 3), (1, 2), (1, 1), (2, 1), (3, 1), (4, 1), (8, 1)])
-        cfg = {'K': K, 'slits': random_valid_slits(rng, K, n), 'bp': rng.randrange(K),
-               'ph': rng.randrange(-3 * K, 3 * K + 1), 'cw': rng.random() < 0.5, 'num': num, 'den': den}
-        order = list(range(n))
-        rng.shuffle(order)
-        nps = [rng.randrange(1, 5)]
-        replay_config(ctx, rec, cfg, rng.choice(ANGLE_UNITS), rng.choice(FREQ_UNITS), rng.choice(PULSE_HZ), nps,
-                      order, mixed_units=(t % 10 == 0))
-        ctx.case(nontrivial_id=('r', t) if _nontrivial(cfg, nps) else None)
-        # a random slit set of the same size (mostly overlapping somewhere; also perturbed valid sets)
-        if t % 2 == 0:
-            sl = [list(s) for s in cfg['slits']]
-            k = rng.randrange(n)
-            if rng.random() < 0.5:
-                sl[k][1] = min(sl[k][1] + rng.choice([1, 2, K // 4, K // 2]), sl[k][0] + K - 1)
-            else:
-                b = rng.randrange(K)
-                sl[k] = [b, b + rng.randrange(1, K)]
-            replay_slitset(ctx, rec, K, sl, 'deg', order)
-            ctx.case(nontrivial_id=('rs', t))
+    # ------------------------------------------------------------------ 1. design (runs while 2. and 3. replay)
+    def design():
+        res = ctx.tlc('chopper/MC_DiskChopper.tla', 'MC_DiskChopper.cfg', workers=W, timeout=1800, coverage=True)
+        require_ok(ctx, res, 'DiskChopper model')
+        require_actions(res, ['AddAnySlit', 'Reject', 'ConstructAny', 'Refuse', 'Direct', 'Expand'])
+        if th:
+            res = ctx.tlc('chopper/MC_DiskChopper.tla', 'MC_DiskChopper_thorough.cfg', workers=W, timeout=2400)
+            require_ok(ctx, res, 'DiskChopper model (thorough bounds)')
+            # random walks far beyond the exhaustive bounds: 360 ticks per turn, up to 6 slits
+            sim = ctx.tlc('chopper/MC_DiskChopper.tla', 'MC_DiskChopper_sim.cfg', workers=W, timeout=900,
+                          simulate='num=600', depth=12, extra=['-seed', str(ctx.seed + 10)])
+            require_ok(ctx, sim, 'DiskChopper random walks (K = 360)')
+            _count_simulated(ctx, sim)
+        for bug in ('nowrap', 'perpulse', 'swap', 'phasesign', 'gap'):
+            ctx.tlc('chopper/MC_DiskChopper.tla', f'Neg_DiskChopper_{bug}.cfg', workers=4, expect_error=True,
+                    timeout=600)
+
+    with Background(design):
+        # ------------------------------------------------------------------ 2. spec -> code
+        time.sleep(0.3)   # distinct scratch directory names for the two TLC processes
+        out = {k: str(ctx.tmp / f'c10-{k}.ndjson') for k in ('OUT_SLITS', 'OUT_CASES', 'OUT_RATIOS')}
+        em = ctx.tlc('chopper/MC_Emit_DiskChopper.tla',
+                     'MC_Emit_DiskChopper_thorough.cfg' if th else 'MC_Emit_DiskChopper.cfg',
+                     workers=2, env=out, timeout=900, count=False)
+        require_ok(ctx, em, 'Emit_DiskChopper')
+        emitted = em.tagged('EMITTED')
+        if not emitted:
+            raise MachineryError('emitter did not report')
+        load = lambda p: [json.loads(line) for line in open(p) if line.strip()]  # noqa: E731
+        slit_recs, case_recs, ratio_recs = load(out['OUT_SLITS']), load(out['OUT_CASES']), load(out['OUT_RATIOS'])
+        if [len(slit_recs), len(case_recs), len(ratio_recs)] != emitted[0][1:4]:
+            raise MachineryError(f'emitted files incomplete: {emitted} vs {len(slit_recs)}, {len(case_recs)}, {len(ratio_recs)}')
+        ctx.extra['emitted'] = {'slit_sets': len(slit_recs), 'configurations': len(case_recs), 'ratios': len(ratio_recs)}
+        rng = ctx.rng
+        tasks = []
+        # -- slit sets
+        for i, r in enumerate(slit_recs):
+            sl, K = r['slits'], r['K']
+            order = list(range(len(sl)))
+            rng.shuffle(order)
+            units = ['deg'] if touching_only(sl, K) else (['deg', 'rad'] if (i % 3 == 0 or r['wraponly']) else
+                                                          [ANGLE_UNITS[i % 2]])
+            for au in units:
+                tasks.append(('slits', K, sl, au, order, ('s', i, au) if (spans_tdc(sl, K) or not r['valid']) else None))
+        # -- frequency ratios
+        deltas_near = [Fraction(0), Fraction(1, 10**12), Fraction(-1, 10**12), Fraction(9, 10**11), Fraction(-9, 10**11)]
+        deltas_far = [Fraction(1, 10**6) * 2, Fraction(-1, 10**6) * 2, Fraction(1, 10**4), Fraction(-3, 10**3),
+                      Fraction(1, 50), Fraction(-1, 7), Fraction(3, 10)]
+        for i, r in enumerate(ratio_recs):
+            for j, d in enumerate(deltas_near + deltas_far):
+                if not r['inphase'] and d != 0 and j < len(deltas_near):
+                    continue
+                fp = PULSE_HZ[(i + j) % (len(PULSE_HZ) if th else 2)]
+                tasks.append(('ratio', r['num'], r['den'], d, FREQ_UNITS[(i + j) % 3], bool((i + j) % 2), fp))
+        # -- configurations of the exhaustive model
+        nmax = 4 if th else 3
+        for i, c in enumerate(case_recs):
+            cfg = {k: c[k] for k in ('K', 'slits', 'bp', 'ph', 'cw', 'num', 'den')}
+            order = list(range(len(cfg['slits'])))
+            rng.shuffle(order)
+            nps = list(range(1, nmax + 1)) if th or i % 4 == 0 else [1 + i % nmax]
+            tasks.append(('config', cfg, ANGLE_UNITS[i % 2], FREQ_UNITS[(i // 2) % 3], PULSE_HZ[(i // 6) % 2], nps,
+                          order, {'direct': c['direct'], 'exp': c['exp']}, i % 24 == 2,
+                          ('c', i) if _nontrivial(cfg, nps) else None))
+        n_enumerated = len(tasks)
+        # -------------------------------------------------------------- 3. code -> spec, random, large
+        nrand = 1200 if th else 250
+        for t in range(nrand):
+            K = rng.choice([24, 48, 72, 120, 360] if th else [24, 48, 72, 120])
+            n = rng.randrange(1, 7)
+            num, den = rng.choice([(1, 4), (1, 3), (1, 2), (1, 1), (2, 1), (3, 1), (4, 1), (8, 1)])
+            cfg = {'K': K, 'slits': random_valid_slits(rng, K, n), 'bp': rng.randrange(K),
+                   'ph': rng.randrange(-3 * K, 3 * K + 1), 'cw': rng.random() < 0.5, 'num': num, 'den': den}
+            order = list(range(n))
+            rng.shuffle(order)
+            nps = [rng.randrange(1, 5)]
+            tasks.append(('config', cfg, rng.choice(ANGLE_UNITS), rng.choice(FREQ_UNITS), rng.choice(PULSE_HZ), nps,
+                          order, None, t % 10 == 0, ('r', t) if _nontrivial(cfg, nps) else None))
+            # a random slit set of the same size (mostly overlapping somewhere; also perturbed valid sets)
+            if t % 2 == 0:
+                sl = [list(x) for x in cfg['slits']]
+                k = rng.randrange(n)
+                if rng.random() < 0.5:
+                    sl[k][1] = min(sl[k][1] + rng.choice([1, 2, K // 4, K // 2]), sl[k][0] + K - 1)
+                else:
+                    b = rng.randrange(K)
+                    sl[k] = [b, b + rng.randrange(1, K)]
+                tasks.append(('slits', K, sl, 'deg', order, ('rs', t)))
+        # every chunk runs in a fresh process: at most 1500 x 14 new scipp dimension labels per process
+        results = run_chunks(worker, chunked(tasks, 1500), PROCS)
+        events, info, counters = merge_results(ctx, results)
+        ctx.extra['tasks'] = {'enumerated': n_enumerated, 'random': len(tasks) - n_enumerated}
     # ------------------------------------------------------------------ 4. TLC judges every event
-    for e in rec.events[:1] + rec.events[len(slit_recs) + 50:len(slit_recs) + 51] + rec.events[-2:]:
+    pe = [e for e in events if e['ev'] == 'pairs']
+    for e in events[:1] + pe[:1] + pe[len(pe) // 2:len(pe) // 2 + 1] + events[-2:]:
         ctx.sample(e)
-    ctx.extra['direct_equal_documented_formula'] = [rec.n_direct_equal, rec.n_direct]
-    ctx.extra['expansion_equal_rotating_disk_for_np_pulses'] = [rec.n_exp_equal, rec.n_exp]
+    ctx.extra['direct_equal_documented_formula'] = [counters.get('direct_equal', 0), counters.get('direct', 0)]
+    ctx.extra['expansion_equal_rotating_disk_for_np_pulses'] = [counters.get('exp_equal', 0), counters.get('exp', 0)]
     tf = ctx.tmp / 'c10.ndjson'
-    write_ndjson(tf, rec.events)
+    write_ndjson(tf, events)
     tr = ctx.tlc('chopper/Trace_DiskChopper.tla', workers=1, env={'TRACE_FILE': str(tf)}, timeout=2400)
     require_ok(ctx, tr, 'Trace_DiskChopper')
     done = tr.tagged('DONE')
-    if not done or done[0][1] != len(rec.events):
-        raise MachineryError(f'trace validation incomplete: {done} vs {len(rec.events)} events')
-    ctx.traces(len(rec.events))
+    if not done or done[0][1] != len(events):
+        raise MachineryError(f'trace validation incomplete: {done} vs {len(events)} events')
+    ctx.traces(len(events))
     for _, line, _tid, clause in tr.tagged('REJECT'):
-        ev, info = rec.events[line - 1], rec.info[line - 1]
+        ev, inf = events[line - 1], info[line - 1]
         if clause.startswith('driver_error') or clause == 'unknown_event':
             raise MachineryError(f'bad event {ev}: {clause}')
         if ev['ev'] == 'pairs':
-            key = f'{info["api"]}: {clause}, {info["rc"]}'
+            key = f'{inf["api"]}: {clause}, {inf["rc"]}'
         elif ev['ev'] == 'slits':
             key = f'DiskChopper(): {clause}'
         else:
             key = f'time_offset_open: {clause}'
-        ctx.violation(key, {'event': ev, **{k: v for k, v in info.items() if k not in ('api', 'rc')}})
+        ctx.violation(key, {'event': ev, **{k: v for k, v in inf.items() if k not in ('api', 'rc')}})
+    # ------------------------------------------------------------------ 5. the judge is sensitive
+    rejected = {line for _, line, _t, _c in tr.tagged('REJECT')}
+    good = [e for i, e in enumerate(events) if (i + 1) not in rejected and e['ev'] == 'pairs'
+            and e['api'] == 'direct' and len(e['pairs']) >= 3]
+    if good:
+        import copy
+        a, b = copy.deepcopy(good[0]), copy.deepcopy(good[len(good) // 2])
+        a['pairs'][0][1] += 1                                   # closes one tick late
+        mid = sorted(b['pairs'])[len(b['pairs']) // 2]
+        i = b['pairs'].index(mid)
+        del b['pairs'][i], b['durs'][i]                         # an opening inside the span is dropped
+        tf2 = ctx.tmp / 'c10-corrupted.ndjson'
+        write_ndjson(tf2, [good[0], a, b])
+        tr2 = ctx.tlc('chopper/Trace_DiskChopper.tla', workers=1, env={'TRACE_FILE': str(tf2)}, timeout=600, count=False)
+        bad = sorted(r[1] for r in tr2.tagged('REJECT'))
+        if bad != [2, 3]:
+            raise MachineryError(f'trace specification is not sensitive: corrupted events 2, 3 -> rejected {bad}')
+        ctx.extra['corrupted_events_rejected'] = [r[3] for r in tr2.tagged('REJECT')]
 
 
 META = {
